@@ -2,6 +2,7 @@ import Mouette.Lemmas.CutSourceBridge2
 import Mouette.Lemmas.CutSourceBridge3
 import Mouette.Lemmas.DualBridge
 import Mouette.Lemmas.CuttingForest
+import Mouette.Lemmas.SpanBridge
 import Mathlib.Data.List.Perm.Basic
 import Mathlib.Data.List.Nodup
 import Mathlib.Tactic.NormNum
@@ -682,6 +683,79 @@ example : ∃ o ps, build 4 F2 (uncutPairs E2 [2] (cutEdges0 E2.length
     exact ⟨o, [(3, 0), (4, 2)], by rw [hun]; exact hb, h2, h3⟩
 
 end instance2
+
+/-! ## round 8: `_build_singularity_spanning_tree_no_features` (BORDER node, candidate paths, Kruskal over them), as written
+
+The whole body is compared with the shape `Generated/C16Span.lean` encodes (alpha-renaming of locals, comments, log calls and
+annotations apart); a guard in the loop that collects the candidate paths — the blind changes C16-a/e/f/g/h — is a TranslateError. -/
+
+section span
+open Mouette.Trees Mouette.SpanSrc
+
+/-- BRIDGE: the Kruskal loop as written is the C10 Kruskal loop on the same entries -/
+theorem spanning_tree_kruskal_source (es : List (Rat × (Nat × Nat))) (uf : State) :
+    (C16P.spanLoop es uf).1 = (kruskalLoop (es.map asEdge) uf).1 ∧
+    (C16P.spanLoop es uf).2.map (fun k => keyify k.1 k.2) = (kruskalLoop (es.map asEdge) uf).2 :=
+  spanLoop_bridge es uf
+
+/-- every key of `path_btw_singus` gets an entry of `path_lengths` (no candidate is dropped) -/
+theorem all_candidates_offered_source (sing : List Nat) (hasBorder : Bool) (border : Nat) (len : Nat × Nat → Rat) :
+    ∀ k, k ∈ C16P.candKeys sing hasBorder border →
+      ∃ x, x ∈ C16P.lengthEntries (C16P.candKeys sing hasBorder border) len ∧ x.2 = k := by
+  intro k hk
+  exact ⟨(len k, k), List.mem_map.mpr ⟨k, hk, rfl⟩, rfl⟩
+
+/-- THE SPANNING FOREST over singularities + BORDER: for any ordering `es` of the length entries (the code sorts them), the keys the
+loop selects come from a forest `C` of united pairs, every singularity is linked through `C` to the BORDER node when the mesh has a
+border, and any two singularities are linked to each other -/
+theorem spanning_forest_source (n : Nat) (sing : List Nat) (hasBorder : Bool) (border : Nat) (len : Nat × Nat → Rat)
+    (es : List (Rat × (Nat × Nat))) (hperm : ∀ x, x ∈ es ↔ x ∈ C16P.lengthEntries (C16P.candKeys sing hasBorder border) len)
+    (hs : ∀ a, a ∈ sing → a < n) (hb : border < n) :
+    ∃ C : List (Nat × Nat), (C16P.spanLoop es (ufInit n)).2.map (fun k => keyify k.1 k.2) = C.reverse.map (fun p => keyify p.1 p.2) ∧
+      Indep C ∧ (∀ p, p ∈ C → p ∈ C16P.candKeys sing hasBorder border) ∧
+      (hasBorder = true → ∀ a, a ∈ sing → EqvClosure (fun x y => (x, y) ∈ C) border a) ∧
+      (∀ i j, i < sing.length → j < sing.length → EqvClosure (fun x y => (x, y) ∈ C) (sing.getD i 0) (sing.getD j 0)) := by
+  have hkeys : ∀ k, k ∈ C16P.candKeys sing hasBorder border → k.1 < n ∧ k.2 < n := by
+    intro k hk
+    unfold C16P.candKeys at hk
+    obtain ⟨p, hp, hk⟩ := List.mem_flatMap.mp hk
+    have hp1 : p.1 ∈ sing := by
+      have h1 := List.mem_zipIdx_iff_getElem?.mp hp
+      exact List.mem_of_getElem? h1
+    rcases List.mem_append.mp hk with hk | hk
+    · obtain ⟨b, hbm, rfl⟩ := List.mem_map.mp hk
+      have hb' : b ∈ sing := List.mem_of_mem_drop hbm
+      rcases keyify_fst_snd p.1 b with ⟨e1, e2⟩ | ⟨e1, e2⟩ <;> rw [e1, e2]
+      · exact ⟨hs _ hp1, hs _ hb'⟩
+      · exact ⟨hs _ hb', hs _ hp1⟩
+    · cases hasBorder with
+      | false => simp at hk
+      | true => simp at hk; subst hk; exact ⟨hb, hs _ hp1⟩
+  obtain ⟨C, c1, c2, c3, c4, c5⟩ := spanning_forest n sing hasBorder border es
+    (fun x hx => by
+      obtain ⟨k, hk, rfl⟩ := List.mem_map.mp ((hperm x).mp hx)
+      exact hkeys k hk)
+    (fun k hk => by
+      obtain ⟨x, hx, hxk⟩ := all_candidates_offered_source sing hasBorder border len k hk
+      exact ⟨x, (hperm x).mpr hx, hxk⟩)
+  refine ⟨C, c1, c2, ?_, c4, c5⟩
+  intro p hp
+  obtain ⟨x, hx, rfl⟩ := c3 p hp
+  obtain ⟨k, hk, rfl⟩ := List.mem_map.mp ((hperm x).mp hx)
+  exact hk
+
+/-- only edges of selected paths are flagged -/
+theorem flag_loop_source (E : List (Nat × Nat)) (paths : Nat × Nat → List Nat) (selected : List (Nat × Nat)) (e : Nat) :
+    e ∈ C16P.flagLoop E paths selected ↔ ∃ k, k ∈ selected ∧ e ∈ C16P.flagPath E (paths k) := by
+  unfold C16P.flagLoop; exact List.mem_flatMap
+
+/-- singularities 3 (on the border: its path to the border is the one-vertex path, key `(9,3)`) and 5, BORDER = 9: the candidate keys
+contain `(9,3)`, and the loop run on them selects `(9,3)` and `(9,5)`: both singularities hang on the BORDER node -/
+example : C16P.candKeys [3, 5] true 9 = [(3, 3), (3, 5), (9, 3), (5, 5), (9, 5)] ∧
+    (C16P.spanLoop [(0, (3, 3)), (0, (9, 3)), (0, (5, 5)), (2, (9, 5)), (3, (3, 5))] (ufInit 10)).2 = [(9, 3), (9, 5)] := by
+  decide +kernel
+
+end span
 
 /-! ## non-vacuity: the extracted definitions, run -/
 
